@@ -291,7 +291,7 @@ func (s *Sim) Tx(name, desc string, msg sdk.Msg, f func(ctx context.Context) (an
 		s.logf("%s OK %s", name, desc)
 	} else if res.Panic != "" {
 		s.Stats["panic:"+name]++
-		s.logf("%s PANIC(%s) %s", name, oneline(res.Panic), desc)
+		s.logf("%s PANIC(%s) [%s] %s", name, oneline(res.Panic), panicSignature("tx", res.Stack), desc)
 	} else {
 		s.logf("%s ERR(%s) %s", name, oneline(res.Err.Error()), desc)
 	}
